@@ -61,6 +61,13 @@ func newPKI(r *RNG, depth int, leafExpired bool) *pki {
 		return genKeyPair(r, a)
 	}
 	p := &pki{rootKey: mk(), interKey: mk(), leafKey: mk()}
+	// RSA keys come from a small embedded pool: the three keys of one hierarchy must be different keys
+	for sameKey(p.interKey, p.rootKey) {
+		p.interKey = mk()
+	}
+	for sameKey(p.leafKey, p.rootKey) || sameKey(p.leafKey, p.interKey) {
+		p.leafKey = mk()
+	}
 	far := time.Now().Add(1000 * time.Hour)
 	p.root = issue(r, "verif blob root", p.rootKey.Public(), nil, p.rootKey, true, far, true)
 	rootCert, _ := x509.ParseCertificate(p.root)
@@ -218,6 +225,9 @@ func init() {
 						signKey = p.rootKey
 						if depth == 1 {
 							signKey = genKeyPair(r, algRS256)
+							for sameKey(signKey, p.leafKey) {
+								signKey = genKeyPair(r, algRS256)
+							}
 						}
 					}
 					chain := p.chain()
@@ -252,6 +262,9 @@ func init() {
 					switch dv {
 					case "root.other":
 						other := newPKI(r, 2, false)
+						for sameKey(other.rootKey, p.rootKey) || sameKey(other.rootKey, p.interKey) || sameKey(other.rootKey, p.leafKey) {
+							other = newPKI(r, 2, false)
+						}
 						poolRoots = [][]string{{hx(other.root)}}
 					case "pool.default":
 						pools = []any{}
@@ -261,11 +274,17 @@ func init() {
 						pools = []any{"nil"}
 					case "pool.lastWins":
 						other := newPKI(r, 2, false)
+						for sameKey(other.rootKey, p.rootKey) {
+							other = newPKI(r, 2, false)
+						}
 						poolRoots = [][]string{{hx(other.root)}, {hx(p.root)}}
 						pools = []any{0, "default", 1}
 						expect = true
 					case "pool.lastWinsBad":
 						other := newPKI(r, 2, false)
+						for sameKey(other.rootKey, p.rootKey) || sameKey(other.rootKey, p.interKey) || sameKey(other.rootKey, p.leafKey) {
+							other = newPKI(r, 2, false)
+						}
 						poolRoots = [][]string{{hx(p.root)}, {hx(other.root)}}
 						pools = []any{0, 1}
 					}
@@ -330,4 +349,9 @@ func init() {
 			}
 		}},
 	)
+}
+
+// sameKey: both RSA and the same key of the embedded pool (EC keys are always freshly generated)
+func sameKey(a, b *KeyPair) bool {
+	return a != nil && b != nil && a.Kind == "rsa" && b.Kind == "rsa" && a.RSA == b.RSA
 }
